@@ -397,13 +397,7 @@ def run(chk):
     from symex import loader
 
     ir = loader.load('io.sqw._ir')
-    chk.functions = loader.describe([build._split_pix_rows, build._PixWrap.write, build.SqwBuilder._make_pix_metadata, build._broadcast_unique_ref,
-                                     models.SqwIXExperiment._serialize_to_dict, models.SqwMultiIXExperiment._serialize_to_dict,
-                                     models.SqwIXSample._serialize_to_dict, models.SqwPixelMetadata._serialize_to_dict, models.SqwLineProj._serialize_to_dict,
-                                     models.SqwLineAxes._serialize_to_dict, models.UniqueObjContainer._serialize_to_dict, models._variable_to_float_array,
-                                     models._angle_value, models._serialize_multi_unit_array, ir._serialize_field, rw.write_object_array, rw.read_object_array,
-                                     sqw._parse_ix_sample_0_0, sqw._parse_line_proj_7_0, sqw._parse_single_ix_experiment_3_0, sqw._parse_pix_metadata_1_0,
-                                     sqw._read_pix_block, sqw._read_dnd_block])
+    chk.functions = loader.describe_exprs(['build._split_pix_rows', 'build._PixWrap.write', 'build.SqwBuilder._make_pix_metadata', 'build._broadcast_unique_ref', 'models.SqwIXExperiment._serialize_to_dict', 'models.SqwMultiIXExperiment._serialize_to_dict', 'models.SqwIXSample._serialize_to_dict', 'models.SqwPixelMetadata._serialize_to_dict', 'models.SqwLineProj._serialize_to_dict', 'models.SqwLineAxes._serialize_to_dict', 'models.UniqueObjContainer._serialize_to_dict', 'models._variable_to_float_array', 'models._angle_value', 'models._serialize_multi_unit_array', 'ir._serialize_field', 'rw.write_object_array', 'rw.read_object_array', 'sqw._parse_ix_sample_0_0', 'sqw._parse_line_proj_7_0', 'sqw._parse_single_ix_experiment_3_0', 'sqw._parse_pix_metadata_1_0', 'sqw._read_pix_block', 'sqw._read_dnd_block'], {**globals(), **locals()})
     jobs = [(3, 2, 'deg', 'direct'), (2, 5, 'rad', 'indirect'), (0, 1, 'rad', 'direct'), (1, 1, 'deg', 'indirect'), (1, 1, 'rad', 'direct', (3, 1, 2, 4)), (0, 1, 'rad', 'direct', (1, 1))]
     if chk.tier == 'thorough':
         jobs += [(3, 1, 'rad', 'direct'), (3, 3, 'deg', 'indirect'), (2, 1, 'deg', 'direct'), (3, 4, 'rad', 'indirect')]
